@@ -1639,7 +1639,7 @@ def run(ctx):
     ctx.log("strict simplex stream done (%d)" % len(sys4))
     # 5. proof terms
     rng = ctx.rng("omegahol")
-    sys5 = [gen_system(rng) for _ in range(ctx.scale(400, 2000))]
+    sys5 = [gen_system(rng) for _ in range(ctx.scale(400, 1500))]
     check_omega_hol(ctx, sys5, "random")
     ctx.log("OmegaHOL stream done (%d)" % len(sys5))
     rng = ctx.rng("simplexhol")
@@ -1648,7 +1648,7 @@ def run(ctx):
     check_simplex_hol(ctx, sys6, "random")
     ctx.log("SimplexHOLWrapper stream done (%d)" % len(sys6))
     rng = ctx.rng("macros")
-    sys7 = [gen_small(rng) for _ in range(ctx.scale(80, 800))]
+    sys7 = [gen_small(rng) for _ in range(ctx.scale(80, 400))]
     check_macros(ctx, sys7, "random")
     ctx.log("HOL macro stream done (3 x %d)" % len(sys7))
 
